@@ -1,10 +1,584 @@
 /-
-  MdModel.Process — placeholder (model not written yet).
+  MdModel.Process — the arithmetic kernels of `process_minidump_with_options` and of the
+  text/brief/JSON printers (C03), with CHECKED operations: every Rust `+ - *`, slice index,
+  `Range::new` that can panic in a build with overflow checks is an explicit `Outcome.panic`;
+  `checked_*` / `wrapping_*` / `saturating_*` are modelled as what they are.
+
+  Kernels (each follows the code as it is now, after the `fix:` commits):
+    * `parseLimits`     — `LinuxProcLimits::from` (process_state.rs:164-196)
+    * `guardFlag`       — `check_for_guard_pages` (processor.rs:787-835) incl. `memory_range()`
+    * `implicitAccess`  — op_analysis.rs:540-548 (`rsp.wrapping_sub(8)`)
+    * `winFrameSize`, `fpo`, `searchStart` — walker.rs:943-948, 985-1048, 783-787
+    * `readerKeeps`, `jsonEnd`, `textEnd`, `frameOffsets`, `unloadedOffset` — the printers' own
+      arithmetic (process_state.rs:796-823, 1050-1110; unwind/lib.rs:469-482; processor.rs:1180)
+    * `argRecovery` read head — arg_recovery.rs:100-120
+    * `contextOffset`, `nearbyIndex` — op_analysis.rs:213, process_state.rs:330
+  The numeric constants (3 fields, 2 << 14, the 8 of push/call and of the ebp slot, the 4-byte
+  words) come from `MdModel.Gen.ProcessConsts`, regenerated from the Rust sources by
+  translators/consts_process.py on every run, which also pins the shape of every guard.
+  Core-only imports (linked into the `mdmodel` driver).
 -/
 import MdModel.Prelude
+import MdModel.Gen.ProcessConsts
 namespace MdModel.Process
+open MdModel
 
-/-- line-protocol entry point of this model (engine(s): process) -/
-def handle (_engine : String) (_args : List String) : String := "bad-op"
+/-! ## checked arithmetic -/
+
+namespace Outcome
+def bind {α β : Type} (x : Outcome α) (f : α → Outcome β) : Outcome β :=
+  match x with
+  | .ok a => f a
+  | .panic s => .panic s
+def isOk {α : Type} : Outcome α → Bool
+  | .ok _ => true
+  | .panic _ => false
+end Outcome
+
+instance {α : Type} [DecidableEq α] : DecidableEq (Outcome α) := fun a b =>
+  match a, b with
+  | .ok x, .ok y => if h : x = y then isTrue (by rw [h]) else isFalse (by intro e; cases e; exact h rfl)
+  | .panic s, .panic t => if h : s = t then isTrue (by rw [h]) else isFalse (by intro e; cases e; exact h rfl)
+  | .ok _, .panic _ => isFalse (by intro e; cases e)
+  | .panic _, .ok _ => isFalse (by intro e; cases e)
+
+instance : Monad Outcome where
+  pure := .ok
+  bind := Outcome.bind
+
+/-- `a + b` on `u64` in a build with overflow checks -/
+def cadd64 (site : String) (a b : Nat) : Outcome Nat :=
+  if a + b ≤ U64MAX then .ok (a + b) else .panic site
+/-- `a - b` on an unsigned type -/
+def csub (site : String) (a b : Nat) : Outcome Nat :=
+  if b ≤ a then .ok (a - b) else .panic site
+/-- `l[i]` -/
+def cidx {α : Type} (site : String) (l : List α) (i : Nat) : Outcome α :=
+  match l[i]? with
+  | some x => .ok x
+  | none => .panic site
+/-- `u64::checked_add` -/
+def checkedAdd64 (a b : Nat) : Option Nat := if a + b ≤ U64MAX then some (a + b) else none
+/-- `u32::checked_add` -/
+def checkedAdd32 (a b : Nat) : Option Nat := if a + b ≤ U32MAX then some (a + b) else none
+/-- 2^64 -/
+def TWO64 : Nat := 18446744073709551616
+/-- `u64::wrapping_sub` -/
+def wrappingSub64 (a b : Nat) : Nat := if b ≤ a then a - b else a + TWO64 - b
+/-- `u64::saturating_add` -/
+def saturatingAdd64 (a b : Nat) : Nat := if a + b ≤ U64MAX then a + b else U64MAX
+
+/-- `mapM` for `Outcome` as plain recursion -/
+def mapO {α β : Type} (f : α → Outcome β) : List α → Outcome (List β)
+  | [] => .ok []
+  | x :: xs =>
+    match f x with
+    | .panic s => .panic s
+    | .ok y =>
+      match mapO f xs with
+      | .panic s => .panic s
+      | .ok ys => .ok (y :: ys)
+
+/-! ## K1 — `/proc/<pid>/limits` (process_state.rs:164-196)
+
+The input is the stream text after `String::from_utf8_lossy` (a `\n` byte is never part of a
+multi-byte sequence, so decoding the whole text and splitting afterwards equals the code's
+split-then-decode; a non-empty line decodes to a non-empty string). -/
+
+/-- Rust `char::is_whitespace` (Unicode `White_Space`), what `str::trim` removes -/
+def isWs (c : Char) : Bool :=
+  let n := c.toNat
+  (9 ≤ n && n ≤ 13) || n == 32 || n == 0x85 || n == 0xA0 || n == 0x1680 ||
+  (0x2000 ≤ n && n ≤ 0x200A) || n == 0x2028 || n == 0x2029 || n == 0x202F || n == 0x205F || n == 0x3000
+
+/-- `str::trim` -/
+def trim (s : List Char) : List Char :=
+  ((s.dropWhile isWs).reverse.dropWhile isWs).reverse
+
+/-- `str::split('\n')` -/
+def splitNl : List Char → List Char → List (List Char)
+  | [], acc => [acc.reverse]
+  | c :: rest, acc => if c = '\n' then acc.reverse :: splitNl rest [] else splitNl rest (c :: acc)
+
+/-- `str::split("  ")` (leftmost, non-overlapping matches of two spaces) -/
+def splitDouble : List Char → List Char → List (List Char)
+  | [], acc => [acc.reverse]
+  | [c], acc => [(c :: acc).reverse]
+  | c :: d :: rest, acc =>
+    if c = ' ' ∧ d = ' ' then acc.reverse :: splitDouble rest []
+    else splitDouble (d :: rest) (c :: acc)
+
+/-- `u64::from_str`: optional `+`, then one or more ASCII digits, value at most `u64::MAX` -/
+def parseU64 (s : List Char) : Option Nat :=
+  let digits := match s with
+    | '+' :: rest => rest
+    | _ => s
+  if digits.isEmpty then none
+  else if digits.all (fun c => '0' ≤ c ∧ c ≤ '9') then
+    let v := digits.foldl (fun acc c => acc * 10 + (c.toNat - '0'.toNat)) 0
+    if v ≤ U64MAX then some v else none
+  else none
+
+inductive Lim where
+  | unlimited
+  | limited (n : Nat)
+  deriving Repr, DecidableEq
+
+/-- `parse_limit` -/
+def parseLimit (s : List Char) : Lim :=
+  let t := trim s
+  if t = "unlimited".toList then .unlimited else .limited ((parseU64 t).getD 0)
+
+structure LimEntry where
+  name : List Char
+  soft : Lim
+  hard : Lim
+  unit : List Char
+  deriving Repr
+
+/-- the closure mapped over the field vectors: indexes `m[0]`, `m[1]`, `m[2]` and, unless the
+    vector has exactly three fields, `m[3]` -/
+def limitLine (m : List (List Char)) : Outcome LimEntry := do
+  let u ← if m.length = 3 then pure "n/a".toList else (do let x ← cidx "limits: m[3]" m 3; pure (trim x))
+  let n ← cidx "limits: m[0]" m 0
+  let s ← cidx "limits: m[1]" m 1
+  let h ← cidx "limits: m[2]" m 2
+  pure { name := trim n, soft := parseLimit s, hard := parseLimit h, unit := u }
+
+/-- `l.split("  ").filter(|x| !x.is_empty())` -/
+def fieldsOf (line : List Char) : List (List Char) :=
+  (splitDouble line []).filter (fun x => !x.isEmpty)
+
+/-- the minimum number of fields of a limit line (`.filter(|m| m.len() >= 3)`) -/
+def LIMIT_MIN_FIELDS : Nat := Consts.limit_min_fields
+
+/-- `LinuxProcLimits::from`, up to the `HashMap` (entries in line order) -/
+def parseLimits (text : List Char) : Outcome (List LimEntry) :=
+  let lines := ((splitNl text []).filter (fun l => !l.isEmpty)).drop 1
+  let ms := (lines.map fieldsOf).filter (fun m => decide (LIMIT_MIN_FIELDS ≤ m.length))
+  mapO limitLine ms
+
+/-- `collect::<HashMap<_,_>>()`: a later line with the same name replaces an earlier one; listed
+    by name (what `print_json` does) -/
+def dedupLast (es : List LimEntry) : List LimEntry :=
+  es.foldl (fun acc e => (acc.filter (fun x => x.name ≠ e.name)) ++ [e]) []
+
+def charsLt (a b : List Char) : Bool := decide (String.ofList a < String.ofList b)
+
+def insertSorted (e : LimEntry) : List LimEntry → List LimEntry
+  | [] => [e]
+  | x :: xs => if charsLt e.name x.name then e :: x :: xs else x :: insertSorted e xs
+
+def sortByName (es : List LimEntry) : List LimEntry := es.foldr insertSorted []
+
+/-! ## K2 — guard pages (processor.rs:787-835) and `memory_range()` (minidump.rs:2525, 2680) -/
+
+inductive InfoKind where
+  | info  -- MINIDUMP_MEMORY_INFO: (base_address, region_size)
+  | maps  -- /proc/self/maps line: (start, end), end inclusive
+  deriving Repr, DecidableEq
+
+structure RawRegion where
+  a : Nat
+  b : Nat
+  /-- `is_readable() || is_writable() || is_executable()` -/
+  acc : Bool
+  deriving Repr
+
+/-- `range_map::Range::new` panics on `start > end` -/
+def rangeNew (s e : Nat) : Outcome (Option (Nat × Nat)) :=
+  if s > e then .panic "Ranges must be ordered" else .ok (some (s, e))
+
+/-- `UnifiedMemoryInfo::memory_range` -/
+def memRange (k : InfoKind) (r : RawRegion) : Outcome (Option (Nat × Nat)) :=
+  match k with
+  | .info =>
+    if r.b = 0 then .ok none else
+    match checkedAdd64 r.a r.b with
+    | none => .ok none
+    | some e => do
+      let e1 ← csub "memory_range: base + size - 1" e 1
+      rangeNew r.a e1
+  | .maps => if r.a > r.b then .ok none else rangeNew r.a r.b
+
+/-- the closure `is_adjacent_to_accessible_memory` over `memory_info.by_addr()` -/
+def adjacentLoop (k : InfoKind) (range : Nat × Nat) : List RawRegion → Outcome Bool
+  | [] => .ok false
+  | r :: rest =>
+    match memRange k r with
+    | .panic s => .panic s
+    | .ok none => adjacentLoop k range rest
+    | .ok (some (os, oe)) =>
+      -- `other_range.end.checked_add(1) == Some(range.start) && is_accessible(&region)`
+      if checkedAdd64 oe 1 = some range.1 ∧ r.acc = true then .ok true
+      -- `range.end.checked_add(1) == Some(other_range.start)`
+      else if checkedAdd64 range.2 1 = some os then .ok r.acc
+      else adjacentLoop k range rest
+
+/-- `GUARD_MEMORY_MAX_SIZE = 2 << 14` -/
+def GUARD_MAX : Nat := Consts.guard_max
+
+/-- one access of `check_for_guard_pages`: `info` is the region found at the accessed address -/
+def guardFlag (k : InfoKind) (byAddr : List RawRegion) (info : RawRegion) : Outcome Bool :=
+  match memRange k info with
+  | .panic s => .panic s
+  | .ok none => .ok false
+  | .ok (some (s, e)) =>
+    if info.acc then .ok false else
+    match csub "guard: range.end - range.start" e s with
+    | .panic m => .panic m
+    | .ok sz => if sz < GUARD_MAX then adjacentLoop k (s, e) byAddr else .ok false
+
+/-! ## K3 — implicit stack access of push/call/pop/ret (op_analysis.rs:540-560) -/
+
+inductive StackOp where
+  | push | call | pop | ret
+  deriving Repr, DecidableEq
+
+/-- address of the implicit access: `rsp.wrapping_sub(8)` for push/call, `rsp` for pop/ret -/
+def implicitAccess (op : StackOp) (rsp : Nat) : Nat :=
+  match op with
+  | .push | .call => wrappingSub64 rsp Consts.push_adjust
+  | .pop | .ret => rsp
+
+/-! ## K4 — STACK WIN sizes and the FPO walk (walker.rs:943-1048) -/
+
+structure WinInfo where
+  localSize : Nat
+  savedSize : Nat
+  paramSize : Nat
+  abp : Bool
+  deriving Repr
+
+/-- `win_frame_size`: `local_size.checked_add(saved_register_size)?.checked_add(grand_callee)` -/
+def winFrameSize (i : WinInfo) (gcps : Nat) : Option Nat :=
+  (checkedAdd32 i.localSize i.savedSize).bind fun x => checkedAdd32 x gcps
+
+/-- `.raSearchStart` of `eval_win_expr` (all checked: a sum that does not fit makes the rule fail) -/
+def searchStart (i : WinInfo) (gcps esp ebp : Nat) (aligned : Bool) : Option Nat :=
+  if aligned then checkedAdd32 ebp Consts.win_ebp_ra
+  else (winFrameSize i gcps).bind fun fs => checkedAdd32 esp fs
+
+structure FpoIn where
+  esp : Option Nat
+  eip : Option Nat
+  ebp : Option Nat
+  ebx : Option Nat
+  gcps : Nat
+  hasGrandCallee : Bool
+  /-- `get_register_at_address` (a u32 word of the stack memory) -/
+  mem : Nat → Option Nat
+
+structure FpoOut where
+  eip : Nat
+  esp : Nat
+  ebp : Nat
+  ebx : Option Nat
+  deriving Repr, DecidableEq
+
+/-- `set_caller_register` on an x86 context: the value must fit `u32` -/
+def fitsU32 (v : Nat) : Option Nat := if v ≤ U32MAX then some v else none
+
+/-- first half of `walk_with_stack_win_fpo`: where the return address is read, and its value.
+    `?` on an `Option` is `.ok none`; the unchecked `+` are `cadd64`. -/
+def fpoEip (x : FpoIn) (esp frameSize : Nat) : Outcome (Option (Nat × Nat)) :=
+  match cadd64 "fpo: callee_esp + frame_size" esp frameSize with
+  | .panic s => .panic s
+  | .ok eipAddr0 =>
+    match x.mem eipAddr0 with
+    | none => .ok none
+    | some eip0 =>
+      -- leftover return address: only a context frame (no grand callee) compares with the callee's eip
+      if x.hasGrandCallee then .ok (some (eipAddr0, eip0)) else
+      match x.eip with
+      | none => .ok none   -- `walker.get_callee_register("eip")?`
+      | some ceip =>
+        if eip0 = ceip then
+          match cadd64 "fpo: eip_address += 4" eipAddr0 Consts.fpo_word with
+          | .panic s => .panic s
+          | .ok a =>
+            match x.mem a with
+            | none => .ok none
+            | some e => .ok (some (a, e))
+        else .ok (some (eipAddr0, eip0))
+
+/-- second half: the caller's `ebp` (and the forwarded `ebx`) -/
+def fpoEbp (i : WinInfo) (x : FpoIn) (esp : Nat) : Outcome (Option (Nat × Option Nat)) :=
+  if i.abp then
+    match cadd64 "fpo: callee_esp + grand_callee_param_size" esp x.gcps with
+    | .panic s => .panic s
+    | .ok s1 =>
+      match cadd64 "fpo: … + saved_register_size" s1 i.savedSize with
+      | .panic s => .panic s
+      | .ok s2 =>
+        -- `.checked_sub(8)?`
+        if s2 < Consts.fpo_ebp_back then .ok none else
+        match x.mem (s2 - Consts.fpo_ebp_back) with
+        | none => .ok none
+        | some v => .ok (some (v, none))
+  else
+    match x.ebp with
+    | none => .ok none
+    | some v => .ok (some (v, x.ebx))
+
+/-- `walk_with_stack_win_fpo` -/
+def fpo (i : WinInfo) (x : FpoIn) : Outcome (Option FpoOut) :=
+  match winFrameSize i x.gcps with
+  | none => .ok none
+  | some frameSize =>
+  match x.esp with
+  | none => .ok none
+  | some esp =>
+    match fpoEip x esp frameSize with
+    | .panic s => .panic s
+    | .ok none => .ok none
+    | .ok (some (eipAddr, callerEip)) =>
+      match cadd64 "fpo: eip_address + 4" eipAddr Consts.fpo_word with
+      | .panic s => .panic s
+      | .ok callerEsp =>
+        match fpoEbp i x esp with
+        | .panic s => .panic s
+        | .ok none => .ok none
+        | .ok (some (callerEbp, ebx)) =>
+          match fitsU32 callerEip, fitsU32 callerEsp, fitsU32 callerEbp with
+          | some a, some b, some c => .ok (some { eip := a, esp := b, ebp := c, ebx := ebx })
+          | _, _, _ => .ok none
+
+/-! ## K5 — the printers' own arithmetic -/
+
+structure ModRaw where
+  base : Nat
+  size : Nat
+  deriving Repr
+
+/-- the readers drop (loaded: minidump.rs:1556) or refuse (unloaded: :1662) a module with
+    `size_of_image == 0 || size_of_image > u64::MAX - base_of_image` -/
+def readerKeeps (m : ModRaw) : Bool := m.size != 0 && decide (m.size ≤ U64MAX - m.base)
+
+/-- `print_json`: `"end_addr": base_of_image + size_of_image` (modules and unloaded modules) -/
+def jsonEnd (m : ModRaw) : Outcome Nat := cadd64 "print_json: base_of_image + size_of_image" m.base m.size
+
+/-- `print`: `module.base_address() + module.size() - 1` (loaded and unloaded, `by_addr()`) -/
+def textEnd (m : ModRaw) : Outcome Nat := do
+  let e ← cadd64 "print: base_address() + size()" m.base m.size
+  csub "print: … - 1" e 1
+
+structure FrameIn where
+  instr : Nat
+  /-- base of `frame.module` -/
+  mbase : Option Nat
+  /-- `frame.function_base` -/
+  fbase : Option Nat
+  /-- `frame.source_line_base` -/
+  lbase : Option Nat
+  deriving Repr
+
+def optSub (site : String) (a : Nat) : Option Nat → Outcome (Option Nat)
+  | none => .ok none
+  | some b =>
+    match csub site a b with
+    | .ok v => .ok (some v)
+    | .panic s => .panic s
+
+/-- `module_offset` / `function_offset` (print_json) and `addr - src_base`, `addr - func_base`,
+    `addr - module.base_address()` (CallStack::print): every subtraction the printers perform on a frame -/
+def frameOffsets (f : FrameIn) : Outcome (Option Nat × Option Nat × Option Nat) := do
+  let m ← optSub "frame.instruction - module.base" f.instr f.mbase
+  let g ← optSub "frame.instruction - function_base" f.instr f.fbase
+  let l ← optSub "frame.instruction - source_line_base" f.instr f.lbase
+  pure (m, g, l)
+
+/-- processor.rs:1180 `frame.instruction - unloaded.raw.base_of_image` for the modules
+    `modules_at_address(frame.instruction)` returns (those whose range contains the address) -/
+def unloadedOffsets (instr : Nat) (unl : List ModRaw) : Outcome (List Nat) :=
+  mapO (fun m => csub "frame.instruction - unloaded.base_of_image" instr m.base)
+    (unl.filter fun m => decide (m.base ≤ instr ∧ instr ≤ m.base + m.size - 1))
+
+/-- what the printers see of a state: `mods`/`unl` = `modules.iter()` / `unloaded_modules.iter()`
+    (JSON), `modsText`/`unlText` = the `by_addr()` sequences (text), `frames` = all frames -/
+structure RenderIn where
+  mods : List ModRaw
+  modsText : List ModRaw
+  unl : List ModRaw
+  unlText : List ModRaw
+  frames : List FrameIn
+
+structure RenderOut where
+  modEnds : List Nat        -- JSON `end_addr`
+  modTextEnds : List Nat    -- text `base + size - 1`
+  unlEnds : List Nat
+  unlTextEnds : List Nat
+  frames : List (Option Nat × Option Nat × Option Nat)
+
+/-- everything the text, brief-text and JSON printers compute with `+`/`-` -/
+def render (r : RenderIn) : Outcome RenderOut := do
+  let a ← mapO jsonEnd r.mods
+  let a' ← mapO textEnd r.modsText
+  let b ← mapO jsonEnd r.unl
+  let b' ← mapO textEnd r.unlText
+  let c ← mapO frameOffsets r.frames
+  pure { modEnds := a, modTextEnds := a', unlEnds := b, unlTextEnds := b', frames := c }
+
+/-! ## small sites -/
+
+/-- op_analysis.rs:213 `(instruction_pointer - memory.base_address()) as usize` then `bytes[offset..]` -/
+def instructionOffset (ip base len : Nat) : Outcome Nat := do
+  let off ← csub "instruction_pointer - memory.base_address()" ip base
+  if off ≤ len then pure off else .panic "bytes[offset..]"
+
+/-- process_state.rs:330 `min(nearby_registers, 4) - 1` then `NEARBY_REGISTER[nearby]` (inside `if nearby_registers > 0`) -/
+def nearbyIndex (nearby : Nat) : Outcome (Option Nat) :=
+  if nearby > 0 then do
+    let i ← csub "min(nearby, 4) - 1" (min nearby 4) 1
+    if i < 4 then pure (some i) else .panic "NEARBY_REGISTER[nearby]"
+  else pure none
+
+/-- arg_recovery.rs:100-120: the read head of `pop_value` (`read_head += POINTER_WIDTH` happens only
+    while `read_head < caller_frame_pointer`) after `n` pops -/
+def argReadHead (start limit : Nat) : Nat → Outcome Nat
+  | 0 => .ok start
+  | n + 1 =>
+    match argReadHead start limit n with
+    | .panic s => .panic s
+    | .ok h => if h < limit then cadd64 "arg_recovery: read_head += 4" h Consts.arg_pointer_width else .ok h
+
+/-- the frame bound the walk obeys (C05 `walk_bound`), evaluated on counts -/
+def boundOk (frames bytes : Nat) : Bool := decide (frames ≤ bytes + 2)
+
+/-! ## line protocol -/
+
+open Proto
+
+def hexOfChars (s : List Char) : String := hex (String.ofList s).toUTF8.toList
+
+def limStr : Lim → String
+  | .unlimited => "u"
+  | .limited n => toString n
+
+def showOutcome {α : Type} (f : α → String) : Outcome α → String
+  | .ok a => f a
+  | .panic _ => "PANIC"
+
+def optStr : Option Nat → String
+  | none => "-"
+  | some n => toString n
+
+def parseOptNat (s : String) : Option (Option Nat) :=
+  if s == "-" then some none else (optNat s).map some
+
+def parseBool (s : String) : Option Bool :=
+  if s == "1" then some true else if s == "0" then some false else none
+
+def parseRegion (s : String) : Option RawRegion :=
+  match s.splitOn ":" with
+  | [a, b, c] => do
+    let a ← optNat a; let b ← optNat b; let c ← parseBool c
+    pure { a := a, b := b, acc := c }
+  | _ => none
+
+def parseList {α : Type} (f : String → Option α) (s : String) : Option (List α) :=
+  if s == "-" then some [] else (pieces s ",").mapM f
+
+def parseKind (s : String) : Option InfoKind :=
+  if s == "info" then some .info else if s == "maps" then some .maps else none
+
+def parseMod (s : String) : Option ModRaw :=
+  match s.splitOn ":" with
+  | [a, b] => do let a ← optNat a; let b ← optNat b; pure { base := a, size := b }
+  | _ => none
+
+def parseFrame (s : String) : Option FrameIn :=
+  match s.splitOn ":" with
+  | [a, b, c, d] => do
+    let a ← optNat a; let b ← parseOptNat b; let c ← parseOptNat c; let d ← parseOptNat d
+    pure { instr := a, mbase := b, fbase := c, lbase := d }
+  | _ => none
+
+def parseOp (s : String) : Option StackOp :=
+  match s with
+  | "push" => some .push | "call" => some .call | "pop" => some .pop | "ret" => some .ret | _ => none
+
+def kvField (key : String) (s : String) : Option String :=
+  if s.startsWith (key ++ ":") then some (s.drop (key.length + 1)).toString else none
+
+/-- answer of one kernel request (the fields after `process`) -/
+def kernel (args : List String) : String :=
+  match args with
+  | ["limits", h] =>
+    match unhex h with
+    | none => "bad-op"
+    | some bytes =>
+      match String.fromUTF8? (ByteArray.mk bytes.toArray) with
+      | none => "bad-op"
+      | some text =>
+        showOutcome (fun es =>
+          let es := sortByName (dedupLast es)
+          s!"ok n={es.length} " ++ joinWith ";" (es.map fun e =>
+            s!"{hexOfChars e.name}={limStr e.soft}/{limStr e.hard}/{hexOfChars e.unit}"))
+          (parseLimits text.toList)
+  | ["guard", k, regions, accs] =>
+    match parseKind k, (kvField "regions" regions).bind (parseList parseRegion),
+          (kvField "acc" accs).bind (parseList fun s => if s == "none" then some none else (parseRegion s).map some) with
+    | some k, some rs, some as =>
+      let flags := mapO (fun (a : Option RawRegion) => match a with
+        | none => Outcome.ok false
+        | some info => guardFlag k rs info) as
+      showOutcome (fun fs => "flags:" ++ joinWith "," (fs.map fun b => if b then "1" else "0")) flags
+    | _, _, _ => "bad-op"
+  | ["push", op, rsp] =>
+    match parseOp op, optNat rsp with
+    | some op, some rsp => if rsp ≤ U64MAX then s!"addr:{implicitAccess op rsp}" else "bad-op"
+    | _, _ => "bad-op"
+  | ["fpo", loc, sav, par, abp, esp, eip, ebp, ebx, gcps, hasgc, mem] =>
+    match (kvField "local" loc).bind optNat, (kvField "saved" sav).bind optNat, (kvField "params" par).bind optNat,
+          (kvField "abp" abp).bind parseBool, (kvField "esp" esp).bind parseOptNat, (kvField "eip" eip).bind parseOptNat,
+          (kvField "ebp" ebp).bind parseOptNat, (kvField "ebx" ebx).bind parseOptNat, (kvField "gcps" gcps).bind optNat,
+          (kvField "gc" hasgc).bind parseBool,
+          (kvField "mem" mem).bind (parseList fun s => match s.splitOn "=" with
+            | [a, v] => do let a ← optNat a; let v ← optNat v; pure (a, v)
+            | _ => none) with
+    | some l, some s, some p, some abp, some esp, some eip, some ebp, some ebx, some g, some gc, some m =>
+      let i : WinInfo := { localSize := l, savedSize := s, paramSize := p, abp := abp }
+      let x : FpoIn := { esp := esp, eip := eip, ebp := ebp, ebx := ebx, gcps := g, hasGrandCallee := gc,
+                         mem := fun a => (m.find? fun e => e.1 == a).map (·.2) }
+      showOutcome (fun r => match r with
+        | none => "none"
+        | some o => s!"some eip={o.eip} esp={o.esp} ebp={o.ebp} ebx={optStr o.ebx}") (fpo i x)
+    | _, _, _, _, _, _, _, _, _, _, _ => "bad-op"
+  | ["printer", mods, tmods, unl, tunl, frames] =>
+    match (kvField "mods" mods).bind (parseList parseMod), (kvField "tmods" tmods).bind (parseList parseMod),
+          (kvField "unl" unl).bind (parseList parseMod), (kvField "tunl" tunl).bind (parseList parseMod),
+          (kvField "frames" frames).bind (parseList parseFrame) with
+    | some ms, some tms, some us, some tus, some fs =>
+      -- the request carries what the readers kept; anything else is not a state the printers can see
+      if !(ms.all readerKeeps && tms.all readerKeeps && us.all readerKeeps && tus.all readerKeeps) then "bad-op" else
+      showOutcome (fun (o : RenderOut) =>
+        let ends (l : List Nat) := joinWith "," (l.map toString)
+        s!"mods:{ends o.modEnds} tmods:{ends o.modTextEnds} unl:{ends o.unlEnds} tunl:{ends o.unlTextEnds} frames:" ++
+          joinWith "," (o.frames.map fun f => s!"{optStr f.1}:{optStr f.2.1}:{optStr f.2.2}"))
+        (render { mods := ms, modsText := tms, unl := us, unlText := tus, frames := fs })
+    | _, _, _, _, _ => "bad-op"
+  | ["bound", l] =>
+    match parseList (fun s => match s.splitOn ":" with
+        | [a, b] => do let a ← optNat a; let b ← optNat b; pure (a, b)
+        | _ => none) l with
+    | some ps =>
+      match (ps.zipIdx.find? fun p => !boundOk p.1.1 p.1.2) with
+      | none => "ok"
+      | some p => s!"over:{p.2}"
+    | none => "bad-op"
+  | _ => "bad-op"
+
+/-- split a list of fields at the separator `//` -/
+def splitReqs : List String → List String → List (List String)
+  | [], acc => [acc.reverse]
+  | x :: rest, acc => if x == "//" then acc.reverse :: splitReqs rest [] else splitReqs rest (x :: acc)
+
+/-- line-protocol entry point of this model (engine: process). `kern a // b // c` answers several
+    kernel requests at once (what a pipeline case asks). -/
+def handle (_engine : String) (args : List String) : String :=
+  match args with
+  | "kern" :: rest => joinWith " // " ((splitReqs rest []).map kernel)
+  | _ => kernel args
 
 end MdModel.Process
